@@ -482,7 +482,7 @@ sqf::runtime::runtime::result sqf::runtime::runtime::execute(sqf::runtime::runti
                 if (dinf.has_value() && !context_active().empty())
                 {
                     auto next_inst = context_active().current_frame().peek(success);
-                    if (success && dinf.value() != (*next_inst)->diag_info())
+                    if (success && (dinf.value().line != (*next_inst)->diag_info().line || dinf.value().path != (*next_inst)->diag_info().path))
                     {
                         break;
                     }
